@@ -70,6 +70,14 @@ type world struct {
 
 	// monitor bookkeeping
 	removed map[int]bool // oracle ids undelegated by governance while their record exists
+	pct     sdkmath.LegacyDec
+}
+
+// cfgT: optional overrides of the randomly chosen parameters (directed scenarios)
+type cfgT struct {
+	mult int64              // 0 = random
+	pct  *sdkmath.LegacyDec // nil = random
+	thr  *sdkmath.Int
 }
 
 func (w *world) ctx() sdk.Context { return w.s.Ctx }
@@ -222,8 +230,14 @@ func (w *world) objects() []objT {
 	for _, x := range w.k.GetOracleSets(w.ctx()) {
 		res = append(res, objT{"os", x.Nonce, x.Height})
 	}
-	w.k.IterateOutgoingTxBatches(w.ctx(), func(b *types.OutgoingTxBatch) bool { res = append(res, objT{"batch", b.BatchNonce, b.Block}); return false })
-	w.k.IterateOutgoingBridgeCalls(w.ctx(), func(c *types.OutgoingBridgeCall) bool { res = append(res, objT{"call", c.Nonce, c.BlockHeight}); return false })
+	w.k.IterateOutgoingTxBatches(w.ctx(), func(b *types.OutgoingTxBatch) bool {
+		res = append(res, objT{"batch", b.BatchNonce, b.Block})
+		return false
+	})
+	w.k.IterateOutgoingBridgeCalls(w.ctx(), func(c *types.OutgoingBridgeCall) bool {
+		res = append(res, objT{"call", c.Nonce, c.BlockHeight})
+		return false
+	})
 	sort.SliceStable(res, func(i, j int) bool {
 		if res[i].kind != res[j].kind {
 			return res[i].kind < res[j].kind
@@ -487,8 +501,26 @@ func (w *world) opAdd(o int, amt sdkmath.Int) {
 		w.out.Count("add:vb-reject")
 		return
 	}
+	wasProposal := w.k.IsProposalOracle(w.ctx(), msg.OracleAddress)
+	before, hadRec := w.k.GetOracle(w.ctx(), w.oracles[o].AccAddress())
 	res := kind(w.tx(func(ctx sdk.Context) error { _, err := w.ms.AddDelegate(ctx, msg); return err }), errTable, "staking")
 	w.out.Count("add:" + res)
+	if res == "ok" {
+		if !wasProposal {
+			w.violate(fmt.Sprintf("stake added without governance approval: AddDelegate succeeded for oracle %d which is not on the proposal-oracle list (removed by governance=%v)", o, w.removed[o]))
+		}
+		if now, ok := w.k.GetOracle(w.ctx(), w.oracles[o].AccAddress()); ok {
+			if now.DelegateAmount.LT(w.thr) || now.DelegateAmount.GT(w.thr.MulRaw(w.mult)) {
+				w.violate("stake outside the configured bounds after a successful AddDelegate")
+			}
+			if hadRec && !before.Online && now.Online {
+				w.out.Nontrivial("add:back-online")
+				if now.SlashTimes != 0 {
+					w.violate("penalty charged more than once: oracle is back online with a non-zero slash counter")
+				}
+			}
+		}
+	}
 	if res == "ok" && w.removed[o] {
 		w.out.Nontrivial("add:re-approved-after-removal")
 	}
@@ -651,17 +683,58 @@ func (w *world) snapshot() snapT {
 	return sn
 }
 
+// refreshStats records which branch of isNeedOracleSetRequest the coming end-blocker is about to take (distribution only)
+func (w *world) refreshStats() {
+	_ = hx.Try(func() error {
+		ctx := w.ctx()
+		latest := w.k.GetLatestOracleSet(ctx)
+		if latest == nil {
+			w.out.Count("refresh:no-latest-set")
+			return nil
+		}
+		cur := w.k.GetCurrentOracleSet(ctx)
+		d := types.BridgeValidators(cur.Members).PowerDiff(latest.Members)
+		pct := w.pct.MustFloat64()
+		switch {
+		case d == 0:
+			w.out.Count("refresh:diff=0")
+		case d < pct/2:
+			w.out.Count("refresh:0<diff<pct/2")
+			w.out.Nontrivial("refresh:small-nonzero-diff")
+		case d < pct*0.98:
+			w.out.Count("refresh:pct/2<=diff<0.98pct")
+		case d < pct:
+			w.out.Count("refresh:0.98pct<=diff<pct")
+			w.out.Nontrivial("refresh:just-below-threshold")
+		case d <= pct*1.02:
+			w.out.Count("refresh:pct<=diff<=1.02pct")
+			w.out.Nontrivial("refresh:just-above-threshold")
+		default:
+			w.out.Count("refresh:diff>1.02pct")
+		}
+		return nil
+	})
+}
+
 func (w *world) opBlock(dt int64) {
 	sn := w.snapshot()
 	h := uint64(w.ctx().BlockHeight())
+	w.refreshStats()
 	w.now = w.now.Add(time.Duration(dt) * time.Second)
 	res := hx.Try(func() error { w.commitAt(w.now); return nil })
 	op := fmt.Sprintf("block %d", dt)
 	if res != "ok" {
 		// FinalizeBlock panicked or returned an error: the chain halts here
 		site := "other"
-		if strings.Contains(res, "decoding bech32 failed") {
+		switch {
+		case strings.Contains(res, "decoding bech32 failed"):
 			site = "SlashOracle:MustAccAddressFromBech32"
+		case strings.Contains(res, "covert power diff to dec err"):
+			site = "isNeedOracleSetRequest:LegacyNewDecFromStr"
+		case strings.Contains(res, "nil pointer"):
+			site = "isNeedOracleSetRequest:nil-latestOracleSet"
+		case strings.Contains(res, "division by zero"):
+			site = "GetCurrentOracleSet:QuoUint64"
 		}
 		w.dead = true
 		aged := 0
@@ -730,7 +803,7 @@ func (w *world) opValSlash(v int, num, den int64) {
 // ---------------------------------------------------------------------------------------------------------
 // world set-up
 
-func newWorld(t *testing.T, out *hx.Out, rng *rand.Rand, mode string) *world {
+func newWorld(t *testing.T, out *hx.Out, rng *rand.Rand, mode string, cfg cfgT) *world {
 	nval := 2 + rng.Intn(2)
 	s := hx.NewSuite(t, nval)
 	w := &world{t: t, s: s, k: s.App.EthKeeper, out: out, rng: rng, mode: mode, nval: nval, now: baseTime, removed: map[int]bool{}}
@@ -747,9 +820,23 @@ func newWorld(t *testing.T, out *hx.Out, rng *rand.Rand, mode string) *world {
 	p := w.k.GetParams(ctx)
 	w.window = uint64(2 + rng.Intn(4))
 	p.SignedWindow = w.window
-	thrChoices := []sdkmath.Int{w.pr.MulRaw(100), w.pr.MulRaw(10), w.pr.MulRaw(100).AddRaw(7), w.pr.MulRaw(3).QuoRaw(2)}
+	// the last two give oracles whose power (stake / powerReduction) is 0, or 0 until they top up
+	thrChoices := []sdkmath.Int{w.pr.MulRaw(100), w.pr.MulRaw(10), w.pr.MulRaw(100).AddRaw(7), w.pr.MulRaw(3).QuoRaw(2), w.pr.MulRaw(100), w.pr.MulRaw(10), w.pr.QuoRaw(2), w.pr.SubRaw(1)}
 	w.thr = thrChoices[rng.Intn(len(thrChoices))]
 	w.mult = []int64{10, 2, 1, 5}[rng.Intn(4)]
+	// OracleSetUpdatePowerChangePercent: default 10 %, plus boundary values (0 = refresh every block, 1 = cap)
+	w.pct = []sdkmath.LegacyDec{p.OracleSetUpdatePowerChangePercent, p.OracleSetUpdatePowerChangePercent, sdkmath.LegacyNewDecWithPrec(5, 2),
+		sdkmath.LegacyNewDecWithPrec(1, 3), sdkmath.LegacyNewDecWithPrec(1, 8), sdkmath.LegacyOneDec(), sdkmath.LegacyNewDecWithPrec(25, 2), sdkmath.LegacyZeroDec()}[rng.Intn(8)]
+	if cfg.mult > 0 {
+		w.mult = cfg.mult
+	}
+	if cfg.pct != nil {
+		w.pct = *cfg.pct
+	}
+	if cfg.thr != nil {
+		w.thr = *cfg.thr
+	}
+	p.OracleSetUpdatePowerChangePercent = w.pct
 	p.DelegateThreshold = types.NewDelegateAmount(w.thr)
 	p.DelegateMultiple = w.mult
 	p.SlashFraction = []sdkmath.LegacyDec{sdkmath.LegacyNewDecWithPrec(8, 1), sdkmath.LegacyNewDecWithPrec(5, 1), sdkmath.LegacyNewDecWithPrec(1, 3), sdkmath.LegacyZeroDec(), sdkmath.LegacyOneDec(), sdkmath.LegacyNewDecWithPrec(333333333333333333, 18)}[rng.Intn(6)]
@@ -802,6 +889,60 @@ func (w *world) pickAmt() sdkmath.Int {
 	default:
 		return w.thr
 	}
+}
+
+// nudgeAmt: a top-up (whole power units) for online oracle `rec` whose effect on the normalised powers is a small
+// non-zero change, or sits at the OracleSetUpdatePowerChangePercent boundary (±1 power unit)
+func (w *world) nudgeAmt(rec types.Oracle) sdkmath.Int {
+	total := sdkmath.ZeroInt()
+	for _, o := range w.k.GetAllOracles(w.ctx(), true) {
+		total = total.Add(o.GetPower())
+	}
+	p := rec.GetPower()
+	unit := w.pr
+	switch w.rng.Intn(6) {
+	case 0:
+		return unit
+	case 1:
+		return unit.MulRaw(int64(1 + w.rng.Intn(5)))
+	case 2:
+		return unit.AddRaw(int64(w.rng.Intn(1000)))
+	}
+	// Σ|Δ| ≈ 2·x·(T−p) / (T·(T+x)) = pct  ⇒  x = pct·T² / (2(T−p) − pct·T)
+	T, rest := sdkmath.LegacyNewDecFromInt(total), sdkmath.LegacyNewDecFromInt(total.Sub(p))
+	den := rest.MulInt64(2).Sub(w.pct.Mul(T))
+	if !den.IsPositive() || w.pct.IsZero() {
+		return unit
+	}
+	x := w.pct.Mul(T).Mul(T).Quo(den).TruncateInt().AddRaw(int64(w.rng.Intn(3)) - 1)
+	if !x.IsPositive() {
+		x = sdkmath.OneInt()
+	}
+	return x.Mul(unit)
+}
+
+func (w *world) opNudge() {
+	var on []types.Oracle
+	for _, o := range w.k.GetAllOracles(w.ctx(), true) {
+		if w.oid(o.OracleAddress) >= 0 {
+			on = append(on, o)
+		}
+	}
+	if len(on) == 0 {
+		return
+	}
+	rec := on[w.rng.Intn(len(on))]
+	o := w.oid(rec.OracleAddress)
+	amt := w.nudgeAmt(rec)
+	if room := w.thr.MulRaw(w.mult).Sub(rec.DelegateAmount); amt.GT(room) && room.GTE(w.pr) && w.rng.Intn(4) > 0 {
+		amt = room.Quo(w.pr).Mul(w.pr)
+	}
+	if have := w.balOf(w.oracles[o].AccAddress()); have.LT(amt) {
+		w.s.MintToken(w.oracles[o].AccAddress(), sdk.NewCoin(fxtypes.DefaultDenom, amt))
+		w.emit(fmt.Sprintf("mint %d %s", o, amt), "ok")
+	}
+	w.out.Count("nudge")
+	w.opAdd(o, amt)
 }
 
 func (w *world) records() []types.Oracle { return w.k.GetAllOracles(w.ctx(), false) }
@@ -893,7 +1034,17 @@ func (w *world) sequence(length int) {
 				list = append(list[:k], list[k+1:]...)
 			}
 			w.opGov(list)
+		case r < 53:
+			w.opNudge()
 		case r < 58:
+			if len(w.removed) > 0 && rng.Intn(2) == 0 { // prefer an oracle governance has removed
+				var ids []int
+				for id := range w.removed {
+					ids = append(ids, id)
+				}
+				sort.Ints(ids)
+				o = ids[rng.Intn(len(ids))]
+			}
 			amt := w.pickAmt()
 			if rec, ok := w.k.GetOracle(w.ctx(), w.oracles[o].AccAddress()); ok && rng.Intn(3) > 0 {
 				sl := rec.GetSlashAmount(w.k.GetSlashFraction(w.ctx()))
@@ -963,21 +1114,83 @@ func (w *world) lifecycle(variant int) {
 		all[i] = i
 	}
 	w.opGov(all)
+	// stake bounds at ±1 (always): below the threshold, one above the maximum, then exactly the maximum for one oracle
+	max := w.thr.MulRaw(w.mult)
+	w.opBond(0, 0, 0, 0, w.thr.SubRaw(1))
+	w.opBond(0, 0, 0, 0, max.AddRaw(1))
+	w.opBond(0, 0, 0, 0, max.Add(w.thr))
 	for i := 0; i < n; i++ {
+		if variant%6 == 5 && i == n-1 {
+			continue // the late joiner
+		}
 		w.opBond(i, i, i, i%w.nval, w.thr)
 	}
 	dil := map[int]bool{}
 	for i := 0; i < n; i++ {
 		dil[i] = true
 	}
+	w.opAdd(1, max.Sub(w.thr).AddRaw(1)) // one above the maximum in total
 	w.opBlock(5)
 	w.confirmRound(dil, 1)
-	switch variant % 3 {
-	case 0: // removal, early unbond attempt, maturity, unbond
-		w.opGov(all[1:])
+	if (variant/6)%2 == 1 { // the latest oracle set is observed on the external chain, then nothing changes for a while
+		w.opObserve(w.k.GetLatestOracleSetNonce(w.ctx()))
+	}
+	switch variant % 6 {
+	case 5: // late joiner: objects created before an oracle joined age unconfirmed by it; it confirms what was created after
+		// (the last oracle account has not bonded yet: see the caller)
+		w.opMkBatch()
+		w.opMkCall()
 		w.opBlock(5)
 		w.confirmRound(dil, 1)
-		if variant%2 == 0 {
+		late := n - 1
+		w.opBond(late, late, late, late%w.nval, w.thr)
+		rec, ok := w.k.GetOracle(w.ctx(), w.oracles[late].AccAddress())
+		for i := uint64(0); i < w.window+3 && !w.dead; i++ {
+			w.opBlock(5)
+			if w.dead {
+				break
+			}
+			delete(dil, late)
+			w.confirmRound(dil, 1)
+			if ok { // the late joiner confirms exactly the objects created at or after its start height
+				for _, x := range w.objects() {
+					if x.height >= uint64(rec.StartHeight) && !strings.Contains("."+w.confExts(x.kind, x.nonce)+".", fmt.Sprintf(".%d.", late)) {
+						w.opConf(x.kind, x.nonce, late, late, true)
+					}
+				}
+			}
+		}
+	case 3: // small relative power changes (whole power units, sized around the refresh threshold) with no slash in the block
+		for r := 0; r < 7 && !w.dead; r++ {
+			w.opNudge()
+			w.opBlock(5)
+			if !w.dead {
+				w.confirmRound(dil, 1)
+			}
+		}
+	case 4: // everybody confirms, then some oracles change their bridger before the signed window elapses
+		w.opMkBatch()
+		w.opMkCall()
+		w.confirmRound(dil, 1)
+		w.opEditB(0, n)
+		if (variant/6)%2 == 0 {
+			w.opEditB(1, n+1)
+		}
+		for i := uint64(0); i < w.window+3 && !w.dead; i++ {
+			w.opBlock(5)
+			if !w.dead {
+				w.confirmRound(dil, 1)
+			}
+		}
+	case 0: // removal, the removed oracle tries to top up / act, early unbond attempt, maturity, unbond
+		w.opGov(all[1:])
+		w.opAdd(0, sdkmath.OneInt())
+		w.opAdd(0, w.pr)
+		w.opEditB(0, n)
+		w.opWithdraw(0)
+		w.opBlock(5)
+		w.confirmRound(dil, 1)
+		if (variant/6)%2 == 0 {
 			w.opUnbond(0)
 		}
 		w.opBlock(w.unb + 1)
@@ -1012,7 +1225,7 @@ func (w *world) lifecycle(variant int) {
 		w.opGov(all[1:])
 		w.opBlock(w.unb + 1)
 		w.confirmRound(dil, 1)
-		if variant%2 == 0 {
+		if (variant/6)%2 == 0 {
 			w.opGov(all)
 			w.opAdd(0, w.thr)
 			w.opBlock(5)
@@ -1029,7 +1242,8 @@ func runAll(t *testing.T, mode string) {
 	rng := rand.New(rand.NewSource(seed))
 	out := hx.NewOut()
 	defer out.Close("correspondence: real eth crosschain module + real staking/bank (FinalizeBlock per `block`, block time moved past the unbonding period) vs Lean model, canonical registry/stake/slashing state after every op; monitors: registry one-to-one, bond bounds, penalty once, stake recoverable (dry-run UnbondedOracle after maturity), slashed only for missed signing, FinalizeBlock never panics. non-trivial = distinct (op, outcome) classes")
-	nseq := hx.N(26, 400)
+	nseq := hx.N(32, 400)
+	const nLife = 12
 	length := 28
 	if hx.Tier() == "thorough" {
 		length = 45
@@ -1038,12 +1252,23 @@ func runAll(t *testing.T, mode string) {
 		fmt.Sscan(os.Getenv("C13_LEN"), &length)
 	}
 	for i := 0; i < nseq; i++ {
-		w := newWorld(t, out, rng, mode)
-		if i < 6 {
+		cfg := cfgT{}
+		if i < nLife && i%6 == 3 {
+			cfg.mult = 10
+			if i >= 6 {
+				five := sdkmath.LegacyNewDecWithPrec(5, 2)
+				cfg.pct = &five
+			}
+		}
+		w := newWorld(t, out, rng, mode, cfg)
+		if i < nLife {
 			w.lifecycle(i)
 		} else {
 			w.sequence(length)
 		}
+	}
+	if mode == "c07" {
+		runGov(t, out, rng) // gov half: real gov end-blocker (tally, deposits, expedited conversion) after every step
 	}
 	t.Logf("sequences=%d evaluations=%d violations=%d", out.Stats.Sequences, out.Stats.Evaluations, len(out.Stats.Violations))
 }
